@@ -35,12 +35,23 @@ func families(thorough bool) []family {
 		d = 1
 	}
 	ab := []string{"a", "b"}
-	return []family{
-		{name: "expr", cfg: gcfg{Names: ab, MaxW: 6 + d, MaxItems: 0, Let2: true, Dotimes: true, Macrolet: true, FunArg: true, Data: true, Styles: 1}},
-		{name: "top", cfg: gcfg{Names: ab, MaxW: 6 + d, MaxItems: 3, Styles: 4, GSet: true, Macros: true, Data: true, Redefine: true}},
-		{name: "pkg", cfg: gcfg{Names: ab, MaxW: 8 + d, MaxItems: 6, HoleMaxW: 1, FinalMaxW: 2, Styles: 1, Packages: true, Files: true, Macros: true, FixParam: true}},
-		{name: "gen", cfg: gcfg{Names: []string{"a", "x1"}, MaxW: 5 + d, MaxItems: 2, Styles: 1}, altFrom: []string{"x1"}, altTo: []string{"c"}},
+	fams := []family{
+		// every local binding form, expressions only
+		{name: "expr", cfg: gcfg{Names: ab, MaxW: 6 + d, MaxItems: 0, Let2: true, Dotimes: true, Macrolet: true, FunArg: true, Styles: 1}},
+		// top-level defun / set / defmacro / statements around the core expression grammar
+		{name: "top", cfg: gcfg{Names: ab, MaxW: 6 + d, MaxItems: 3, Styles: 1, GSet: true, Macros: true, Redefine: true, HoleMaxW: 3, FinalMaxW: 4}},
+		// &key / &optional / &rest signatures and keyword calls
+		{name: "key", cfg: gcfg{Names: ab, MaxW: 5 + d, MaxItems: 2, Styles: 4, FixParam: true}},
+		// keywords, quoted symbols and quoted lists as data
+		{name: "data", cfg: gcfg{Names: ab, MaxW: 5 + d, MaxItems: 2, Styles: 1, Data: true}},
+		// packages, exports, use-package, qualified names, two files, macros; one global name
+		{name: "pkg", cfg: gcfg{Names: ab, MaxW: 8 + d, MaxItems: 6, HoleMaxW: 1, FinalMaxW: 2, Styles: 1, Packages: true, Files: true, Macros: true, FixParam: true, DefNames: 1}},
+		// the same with two global names
+		{name: "pkg2", cfg: gcfg{Names: ab, MaxW: 7 + d, MaxItems: 6, HoleMaxW: 1, FinalMaxW: 2, Styles: 1, Packages: true, Files: true, FixParam: true}},
+		// names of the minifier's own x<N> scheme in the source
+		{name: "gen", cfg: gcfg{Names: []string{"a", "x1"}, MaxW: 5 + d, MaxItems: 2, Styles: 1, HoleMaxW: 2}, altFrom: []string{"x1"}, altTo: []string{"c"}},
 	}
+	return fams
 }
 
 type job struct {
